@@ -223,11 +223,12 @@ fn run(ctx: &Ctx) -> ShardOut {
     'm: for seed in &seeds {
         let mut batch = Vec::new();
         mutations(seed, &mut |m| batch.push(m));
-        for m in batch {
+        for (mi, m) in batch.into_iter().enumerate() {
             for (k, &st) in mut_states.iter().enumerate() {
                 idx += 1;
-                // quick: each mutation meets one of the two states (alternating), thorough: all four
-                if !ctx.thorough() && (idx / 2 + k as u64) % 2 == 1 {
+                // quick: EVERY mutation meets exactly one of the two states (alternating by the
+                // mutation's own index), thorough: all four states
+                if !ctx.thorough() && (mi + k) % 2 == 1 {
                     continue;
                 }
                 if !ctx.mine(idx) {
